@@ -47,6 +47,7 @@ DECIDING = ["walk_evaluations_compared", "determinism_pairs", "snapshots_compare
             "write_set_kernels_traced", "failed_evaluations_injected"]
 SHARD_TIMEOUT = {"quick": 900, "thorough": 5400}
 
+WALK_KINDS = ["decay_no_irf", "decay_dispersed_irf", "coherent_artifact", "oscillation_no_irf", "decay_multi_gaussian_irf", "spectral_axis_scale", "clp_guide_scaled", "all_scaled"]
 KINDS = ["decay_no_irf", "decay_dispersed_irf", "coherent_artifact", "oscillation_no_irf", "decay_multi_gaussian_irf"]
 EXPECT_KERNELS = ["calculate_decay_matrix_no_irf", "calculate_decay_matrix_gaussian_irf", "_calculate_coherent_artifact_matrix",
                   "calculate_damped_oscillation_matrix_no_irf"]
@@ -501,11 +502,12 @@ def run_shard(spec, rec):
         rec.case(("walk",) + c02.signature(jc), bool(nt), sample=jc if i == 0 else None, features=["walk:harness-scheme"])
         determinism_and_inputs(jc, rec, fp, ["TrustRegionReflection", "Dogbox", "Levenberg-Marquardt"][i % 3] if not any("min" in p or "max" in p for p in jc["parameters"].values()) else ["TrustRegionReflection", "Dogbox"][i % 2])
         if i % 3 == 0:
-            kind = (KINDS + ["spectral_axis_scale"])[(i // 3 + spec["shard"]) % 6]
+            kind = WALK_KINDS[(i // 3 + spec["shard"]) % len(WALK_KINDS)]
 
             def kb(kind=kind):
                 s = build_kinetic(kind, 3)
-                s.data["d1"] = s.data["d1"].isel(time=slice(0, 1500, 25))
+                if s.data["d1"].sizes["time"] >= 1500:
+                    s.data["d1"] = s.data["d1"].isel(time=slice(0, 1500, 25))
                 s.maximum_number_function_evaluations = 1
                 return s
 
